@@ -102,7 +102,8 @@ class C15(Prop):
         res = {}
         v = lambda r: r if r[0] != "ok" else ("ok", bool(r[1][0]) if isinstance(r[1], tuple) else bool(r[1]))
         res["is_single_peaked"] = v(call(S.is_single_peaked, mk()))
-        res["is_single_peaked_pq_tree"] = v(call(S.is_single_peaked_pq_tree, mk()))
+        if m <= 15 and n * m <= 200:      # the PQ-tree port is slow on many rows
+            res["is_single_peaked_pq_tree"] = v(call(S.is_single_peaked_pq_tree, mk()))
         res["is_single_crossing"] = v(call(SC.is_single_crossing, mk()))
         if n <= 12:
             res["is_single_crossing_conflict_sets"] = v(call(SC.is_single_crossing_conflict_sets, mk()))
